@@ -64,6 +64,16 @@ CHECKS = {
          "All histories up to the stated depth over {get key A/B/C via either of two service handles on one store with inner ok/err, wait 10 ms} for LRU/LFU/FIFO x max_size 1-2 x TTL none/20/50 ms x private/shared store run on the real cache; every call must be a hit or a miss exactly as the reference allows: a hit returns the serial most recently stored for that key, never another key's or an expired one, makes no inner call; a miss makes exactly one; errors are never stored; evicted keys (policy victim) miss. Concurrent gated misses on one key are explored over all poll/completion orders.",
          "Set-valued points: LFU ties, lookups at exactly the TTL, eviction of an already expired entry instead of the policy victim.",
          "4 C10"),
+ "C11": ("svcx", "model_checking",
+         "explicit-state BFS over event schedules of the real CoalesceService under a controlled scheduler",
+         "Every schedule of 3-4 callers over keys {A,B} on clones of one real CoalesceService - arrivals, polls, drops of leaders and waiters at every point, gated inner completions ok/err/panic - is executed; in every state at most one inner call per key is in flight, a request joining a live call makes none of its own and resolves (in the first poll after the leader's outcome is published) with a clone of exactly that call's result or with LeaderCancelled if the leader was dropped or panicked, a request arriving when no call for its key is in flight starts one at once; from every state, two polls after all gates open every caller has resolved and a fresh request per key starts a fresh call.",
+         "Granularity one Future::poll (shared state: parking_lot mutex + broadcast channel).",
+         "4 C11"),
+ "C12": ("svcx", "model_checking",
+         "explicit-state BFS over event schedules of one hedged call on the real Hedge service with gated attempts under virtual time",
+         "For max_hedged_attempts 1-3 and fixed / immediate / per-attempt (incl. zero entries) delays every order of attempt completions (ok/err) relative to the hedge start instants (before / at / after) is executed; in every state: attempts started <= max, attempt k starts >= delay(k) after attempt k-1 (all at the first poll in parallel mode), a success wakes the caller at that instant and the next poll returns the first successful attempt's payload, all-attempts-failed only when max attempts were started and all failed, never Pending after that; from every state a drain in which every remaining attempt fails must end in all-attempts-failed.",
+         "Prompt executor; attempt tasks are tokio-spawned and run FIFO whenever the explorer yields; their relative order is explored through the gates.",
+         "4 C12"),
 }
 
 NOT_YET = {}
